@@ -268,3 +268,23 @@ extern "C" void h_growing_sequences(void) {
    }
    vp_done();
 }
+
+// equality on basic specifiers / qualifiers for the standard names: the value rebuilt from the spelling (through get_logogram) equals the
+// one the Lexicon decomposes its own set into, and differs from every other name's
+extern "C" void h_basic_names(void) {
+   World* w = new World; auto& lx = w->lx; const ipr::Lexicon& cl = lx;
+   static const char8_t* const spec_names[18] = { u8"=0", u8"export", u8"public", u8"protected", u8"private", u8"consteval", u8"constexpr", u8"constinit", u8"explicit",
+      u8"extern", u8"friend", u8"inline", u8"mutable", u8"register", u8"static", u8"thread_local", u8"typedef", u8"virtual" };
+   static const char8_t* const qual_names[3] = { u8"const", u8"volatile", u8"restrict" };
+   unsigned i = vp_pick(18), j = vp_pick(18);
+   ipr::Basic_specifier si { lx.get_logogram(lx.get_string(spec_names[i])) }, sj { lx.get_logogram(lx.get_string(spec_names[j])) };
+   vp_assert((si == sj) == (i == j) && (si != sj) == (i != j), 700);
+   auto d = cl.decompose(cl.specifiers(si));
+   vp_assert(d.size() == 1 && d[0] == si && (d[0] == sj) == (i == j) && d[0].logogram() == si.logogram(), 701);
+   unsigned a = vp_pick(3), b = vp_pick(3);
+   ipr::Basic_qualifier qa { lx.get_logogram(lx.get_string(qual_names[a])) }, qb { lx.get_logogram(lx.get_string(qual_names[b])) };
+   vp_assert((qa == qb) == (a == b), 702);
+   auto dq = cl.decompose(cl.qualifiers(qa));
+   vp_assert(dq.size() == 1 && dq[0] == qa && (dq[0] == qb) == (a == b), 703);
+   vp_done();
+}
